@@ -138,10 +138,27 @@ def _pure(test):
     return True
 
 
+class _Lit(ast.NodeTransformer):
+    """getattr(x, 'name') with a name that is a literal once locals are
+    resolved reads x.name"""
+
+    def visit_Call(self, node):
+        self.generic_visit(node)
+        if isinstance(node.func, ast.Name) and node.func.id == 'getattr' and \
+                len(node.args) == 2 and not node.keywords and \
+                isinstance(node.args[1], ast.Constant) and \
+                isinstance(node.args[1].value, str) and node.args[1].value.isidentifier():
+            return ast.copy_location(ast.Attribute(
+                value=node.args[0], attr=node.args[1].value, ctx=ast.Load()), node)
+        return node
+
+
 def subst(expr, env):
     if expr is None:
         return None
     new = _Sub(env).visit(clone(expr))
+    if any(isinstance(n, ast.Name) and n.id == 'getattr' for n in ast.walk(new)):
+        new = _Lit().visit(new)
     return new
 
 
@@ -418,14 +435,18 @@ def summarise(func, limit=6000, to_raise=True, lists=False):
                     ps.order_nodes.append((n, lab))
                 for x in eval_order(a):
                     if isinstance(x, ast.Call):
-                        ps.events.append(Event('call', n, x, subst(x, env)))
+                        r_ = subst(x, env)
+                        if isinstance(r_, ast.Call):
+                            ps.events.append(Event('call', n, x, r_))
                 continue
             if n.kind == 'iter':
                 if n.id not in seen_iters:
                     seen_iters.add(n.id)
                     for x in eval_order(a.iter):
                         if isinstance(x, ast.Call):
-                            ps.events.append(Event('call', n, x, subst(x, env)))
+                            r_ = subst(x, env)
+                            if isinstance(r_, ast.Call):
+                                ps.events.append(Event('call', n, x, r_))
                 it = subst(a.iter, env)
                 # a local name iterated twice without rebinding denotes the
                 # same object: the two loops agree on emptiness
@@ -497,7 +518,9 @@ def summarise(func, limit=6000, to_raise=True, lists=False):
                 a = h = unroll_stmt(a, env)
             for x in eval_order(h):
                 if isinstance(x, ast.Call):
-                    ps.events.append(Event('call', n, x, subst(x, env)))
+                    r_ = subst(x, env)
+                    if isinstance(r_, ast.Call):      # (getattr(x, 'lit') reads x.lit)
+                        ps.events.append(Event('call', n, x, r_))
                 elif isinstance(x, (ast.Yield, ast.YieldFrom)):
                     ps.events.append(Event(
                         'yield' if isinstance(x, ast.Yield) else 'yieldfrom', n, x,
